@@ -79,6 +79,9 @@ func genCase(t *rapid.T) Case {
 		}
 		c.Fracs = append(c.Fracs, fr)
 	}
+	// small sorted-docs blocks: every sealed fraction then has many doc blocks at different offsets
+	c.Opts.DocBlockSize = rapid.SampledFrom([]int{0, 128, 700, 5000}).Draw(t, "docblock")
+	c.Opts.SkipSortDocs = rapid.IntRange(0, 3).Draw(t, "skipsort") == 3
 	nl := rapid.IntRange(1, 4).Draw(t, "nlists")
 	for l := 0; l < nl; l++ {
 		c.Lists = append(c.Lists, genList(t, c.Fracs, all))
